@@ -659,6 +659,15 @@ def hEdsReconcile (inp out : Json) : Except String Findings := do
   let fs := spec fs "C15.selection-kept-on-stale-read" (!staleRead || !storedCanaryChanged)
   let own := ownErs d all
   let fs := spec fs "C12.writes-owned" o.foreign.isEmpty
+  -- C12 "never ... adopted as its replica set": the replica sets the written status names — active and
+  -- canary — are the ExtendedDaemonSet's own (its namespace, its name label, as listed by this reconcile)
+  -- or the one this reconcile created; a name kept from the previous status is not an adoption
+  let fs := match o.statusUpdate with
+    | some s =>
+      let mine := fun (nm : String) => nm == "" || own.any (fun e => e.name == nm) || o.created.isSome ||
+                    nm == d.status.activeReplicaSet || (match d.status.canary with | some c => c.replicaSet == nm | none => false)
+      spec fs "C12.no-adoption" (mine s.activeReplicaSet && (match s.canary with | some c => mine c.replicaSet | none => true))
+    | none => fs
   -- C13: create only when no own replica set matches the template; faithful; named for this EDS
   let hasMatch := own.any (fun e => SMap.get? e.annotations K.templateHashAnnot == some d.templateHash)
   let fs := spec fs "C13.create-only-if-none" (o.created.isNone || !hasMatch)
@@ -847,6 +856,22 @@ def hErsReconcile (inp out : Json) : Except String Findings := do
                                 | some p => (match p.nodeOf with | some n => !canaryNodes.contains n | none => true)
                                 | none => true)))
   let fs := spec fs "C04.unknown-inert" (role != "unknown" || (o.creates.isEmpty && o.deleted.isEmpty && o.labelAdds.isEmpty && o.labelRemoves.isEmpty))
+  -- C04 "pods of the canary replica set on canary nodes carry the canary label during the canary" —
+  -- paused or failed canaries included: a full canary sync (not throttled, no early error, no injected
+  -- fault) labels the kept pod of every canary node that is this replica set's and lacks the label
+  -- (theorem C04_label_on)
+  let gatedC := match findCond rs.status.conds "LastFullSync", d.strategy.reconcileFrequency with
+    | some c, some f => c.lastUpdate + f > now
+    | _, _ => false
+  let fs := spec fs "C04.label-on" (role != "canary" || faulted || gatedC || m.earlyErr || o.kind != "ok" ||
+      !isDefaulted d.strategy d.templateName ||
+      (match ersNodeItems d rs st with
+       | some items => (filterAndMap (fun n => !inBackoff.contains n) rs.template items (ersPods d st) []).byNode
+       | none => []).all (fun (e : NodeItem × Option Pod) => match e.2 with
+        | some p => !(canaryNodes.contains e.1.node.name && p.hasLabels &&
+                      SMap.get? p.labels K.ersNameLabel == some rs.name &&
+                      SMap.get? p.labels K.canaryLabel != some "true") || o.labelAdds.contains p.name
+        | none => true))
   let fs := spec fs "C04.label-only-own-ers" ((o.labelAdds ++ o.labelRemoves).all (fun nm =>
       match pods.find? (fun p => p.name == nm && p.ns == rs.ns) with
       | some p => SMap.get? p.labels K.ersNameLabel == some rs.name
@@ -869,6 +894,28 @@ def hErsReconcile (inp out : Json) : Except String Findings := do
       | none => false))
   -- C10: created pods are pinned and carry the metadata
   let fs := spec fs "C10.api-pinned-meta" (o.creates.all (fun c => Spec.C10.pinned c.pod c.node aff && Spec.C10.metaOk c.pod rs))
+  -- C08 at the level of the whole sync (active role): only the ExtendedDaemonSet's *current* annotations
+  -- pause or freeze — the written conditions say so, a paused or frozen sync deletes nothing for
+  -- updating, a frozen one creates nothing; once the annotation is gone the conditions are not True
+  let edsPaused := SMap.get? d.annotations K.rollingUpdatePausedAnnot == some "true"
+  let edsFrozen := SMap.get? d.annotations K.rolloutFrozenAnnot == some "true"
+  let fs := if role != "active" then fs else
+    let fs := spec fs "C08.sync-paused-no-update-delete" (!(edsPaused || edsFrozen) || updDel.isEmpty)
+    let fs := spec fs "C08.sync-frozen-no-create" (!edsFrozen || o.creates.isEmpty)
+    match o.statusUpdate with
+    | some s => if s.status != "active" then fs else
+        spec fs "C08.sync-flags" ((!isCondTrue s.conds "RollingUpdatePaused" || edsPaused) &&
+                                  (!isCondTrue s.conds "RolloutFrozen" || edsFrozen))
+    | none => fs
+  -- C10 "a pod just created for given inputs is recognised as up to date for the same inputs, so it is
+  -- never replaced spuriously": every pod the sync deletes *in order to update it* (clean-up deletions
+  -- of duplicates / ineligible nodes aside) is out of date for what the sync read — another template
+  -- hash, another node-override hash, or a resource value the applicable setting demands differs.
+  -- (`comparePod` is the up-to-date relation of EdsProps/C10: round trip and the three detections.)
+  let fs := spec fs "C10.sync-no-spurious-replace" (role == "unknown" || updDel.all (fun nm =>
+      match m.entries.find? (fun e => match e.2 with | some p => p.name == nm | none => false) with
+      | some (ni, some p) => !comparePod rs.templateGeneration p ni
+      | _ => true))
   -- C03 at the level of the whole sync (this is where pods adopted from the old DaemonSet enter):
   -- the pods deleted for updating respect the availability budget computed on the entries
   let fs := if role != "active" then fs else
@@ -1151,20 +1198,9 @@ def hMetrics (inp out : Json) : Except String Findings := do
   let fs := compareSamples fs "ers" rs (ersSamples e)
   -- the property, clause by clause: each series reports the status field of the same name
   let st := d.status
-  let fs := spec fs "C20.eds-gauges" (
-    gauge es "eds_status_desired" == some st.desired && gauge es "eds_status_current" == some st.current &&
-    gauge es "eds_status_ready" == some st.ready && gauge es "eds_status_available" == some st.available &&
-    gauge es "eds_status_uptodate" == some st.upToDate && gauge es "eds_status_ignored_unresponsive_nodes" == some st.ignored &&
-    gauge es "eds_status_canary_activated" == some (if st.canary.isSome then 1 else 0) &&
-    gauge es "eds_status_canary_node_number" == some (match st.canary with | some c => c.nodes.length | none => 0) &&
-    gauge es "eds_status_rolling_update_paused" == some (if st.state == "RollingUpdate Paused" then 1 else 0) &&
-    gauge es "eds_status_rollout_frozen" == some (if st.state == "Rollout frozen" then 1 else 0))
+  let fs := spec fs "C20.eds-gauges" (Spec.C20.edsGauges st (gauge es))
   let et := e.status
-  let fs := spec fs "C20.ers-gauges" (
-    gauge rs "ers_status_desired" == some et.desired && gauge rs "ers_status_current" == some et.current &&
-    gauge rs "ers_status_ready" == some et.ready && gauge rs "ers_status_available" == some et.available &&
-    gauge rs "ers_status_ignored_unresponsive_nodes" == some et.ignored &&
-    gauge rs "ers_status_canary_failed" == some (if isCondTrue et.conds "Canary-Failed" then 1 else 0))
+  let fs := spec fs "C20.ers-gauges" (Spec.C20.ersGauges et (gauge rs))
   -- label-info series: same contract as BuildInfoLabels
   let info := fun (impl : List SampleJ) (family : String) (labels : SMap) =>
     match impl.find? (fun s => s.family == family) with
